@@ -22,6 +22,8 @@ pub enum Party {
     AddSnap,
     /// call cleanup directly (only on layouts with a latest version)
     Cleanup,
+    /// a reader walking the chain from the first version while the others work
+    Walk,
 }
 
 #[derive(Clone, Copy, Debug, PartialEq, Eq, serde::Serialize, serde::Deserialize)]
@@ -59,6 +61,7 @@ pub enum Ev10 {
     Added { parent: Uuid, id: Uuid, payload: Vec<u8> },
     Rejected,
     SnapAdded { v: Uuid },
+    Got { parent: Uuid, id: Uuid, payload: Vec<u8> },
     CleanupDone(bool),
     Failed(String),
 }
@@ -167,6 +170,22 @@ async fn run_party(store: MemStore, who: usize, p: Party, head: Uuid, gate: Arc<
             let r = c.cleanup().await;
             log.push(Ev10::CleanupDone(r.is_ok()));
         }
+        Party::Walk => {
+            let mut cur = Uuid::nil();
+            for _ in 0..8 {
+                match c.get_child_version(cur).await {
+                    Ok(GetVersionResult::Version { version_id, parent_version_id, history_segment }) => {
+                        log.push(Ev10::Got { parent: parent_version_id, id: version_id, payload: history_segment });
+                        cur = version_id;
+                    }
+                    Ok(GetVersionResult::NoSuchVersion) => break,
+                    Err(e) => {
+                        log.push(Ev10::Failed(format!("get_child_version: {e:#}")));
+                        break;
+                    }
+                }
+            }
+        }
     }
     log
 }
@@ -247,6 +266,7 @@ impl Scenario for Sc10 {
         }
         let mut rejected = 0;
         let mut new_snaps = vec![];
+        let mut served: Vec<(Uuid, Uuid, Vec<u8>)> = vec![];
         for (i, r) in results.into_iter().enumerate() {
             let Some(log) = r else {
                 if stopped[i] {
@@ -264,6 +284,7 @@ impl Scenario for Sc10 {
                     }
                     Ev10::Rejected => rejected += 1,
                     Ev10::SnapAdded { v } => new_snaps.push(v),
+                    Ev10::Got { parent, id, payload } => served.push((parent, id, payload)),
                     Ev10::CleanupDone(_) | Ev10::Failed(_) => {}
                 }
             }
@@ -283,6 +304,23 @@ impl Scenario for Sc10 {
             for (p, c) in &child_of {
                 if !links.contains(&(*p, *c)) {
                     return Err(format!("ack-not-committed: version {c} (child of {p}) was acknowledged but 'latest' never moved from {p} to it"));
+                }
+            }
+        }
+        // whatever a concurrent reader was served is on the committed chain, with the right bytes
+        {
+            let mut prev = Uuid::nil();
+            let mut links = std::collections::BTreeSet::new();
+            for c in &chain {
+                links.insert((prev, *c));
+                prev = *c;
+            }
+            for (p, c, bytes) in &served {
+                if !links.contains(&(*p, *c)) {
+                    return Err(format!("off-chain-served: a reader walking during the cleanup was served {c} (child of {p}), which is not on the chain"));
+                }
+                if payloads.get(c).is_some_and(|b| b != bytes) {
+                    return Err(format!("wrong-bytes: a reader walking during the cleanup received {c} with different bytes than submitted"));
                 }
             }
         }
@@ -408,6 +446,8 @@ pub fn run(opts: &Opts) -> i32 {
         vec![Party::AddCleanup, Party::AddSnap],
         vec![Party::Cleanup, Party::Cleanup],
         vec![Party::AddCleanup, Party::AddCleanup],
+        vec![Party::Cleanup, Party::Walk],
+        vec![Party::AddCleanup, Party::Walk],
     ];
     for lay in layouts(if q { 3 } else { 4 }, 1) {
         for parties in &combos {
